@@ -1157,9 +1157,10 @@ impl Interpreter {
                                 vm_guard.guard(obj.cheap_clone());
                             }
 
+                            let this_value = order_suspension.state.this_value.clone();
                             let mut vm = BytecodeVM::from_saved_state(
                                 order_suspension.state,
-                                JsValue::Object(self.global.clone()),
+                                this_value,
                                 vm_guard,
                                 &self.heap,
                             );
@@ -1171,9 +1172,10 @@ impl Interpreter {
                         Err(error) => {
                             // Inject error as exception
                             let vm_guard = self.heap.create_guard();
+                            let this_value = order_suspension.state.this_value.clone();
                             let mut vm = BytecodeVM::from_saved_state(
                                 order_suspension.state,
-                                JsValue::Object(self.global.clone()),
+                                this_value,
                                 vm_guard,
                                 &self.heap,
                             );
@@ -1218,22 +1220,18 @@ impl Interpreter {
                         match status {
                             PromiseStatus::Fulfilled => {
                                 let vm_guard = self.heap.create_guard();
+                                let this_value = ctx.state.this_value.clone();
                                 let mut vm = BytecodeVM::from_saved_state(
-                                    ctx.state,
-                                    JsValue::Object(self.global.clone()),
-                                    vm_guard,
-                                    &self.heap,
+                                    ctx.state, this_value, vm_guard, &self.heap,
                                 );
                                 vm.set_resume_value(ctx.resume_register, result_value);
                                 self.active_vm = Some(Box::new(vm));
                             }
                             PromiseStatus::Rejected => {
                                 let vm_guard = self.heap.create_guard();
+                                let this_value = ctx.state.this_value.clone();
                                 let mut vm = BytecodeVM::from_saved_state(
-                                    ctx.state,
-                                    JsValue::Object(self.global.clone()),
-                                    vm_guard,
-                                    &self.heap,
+                                    ctx.state, this_value, vm_guard, &self.heap,
                                 );
                                 if vm.inject_exception(self, result_value.clone()) {
                                     self.active_vm = Some(Box::new(vm));
@@ -3037,6 +3035,11 @@ impl Interpreter {
                 arguments: args.clone(),
                 new_target: JsValue::Undefined,
                 trampoline_stack: Vec::new(), // Generators run at top level
+                this_value: this_value.clone(),
+                exception_value: None,
+                saved_env_stack: Vec::new(),
+                current_constructor: None,
+                pending_completion: None,
             };
 
             // Create guard for the VM registers
